@@ -8,6 +8,9 @@
                      and something is there to take; pending first, else the channel
       Net pkts       the readb arm: a batch of packets; replies are buffered and flushed after
                      the whole batch; an Err inside the batch fails the loop before the flush
+      NetAbort pkts  the readb arm when the connection ends right after those packets: the state
+                     machine has processed them, the buffered replies are NOT flushed, the loop
+                     fails ("FailInBatch": the crash point inside a read batch)
       KeepAliveFire  the keep-alive arm: handle_outgoing_packet(PingReq)
       Fail           any Err out of select(): EventLoop::clean()
       Reconnect sp   poll() with no network: connect; pending.clear() iff !session_present
@@ -31,6 +34,7 @@ Inductive lop :=
 | Yield
 | TakeRequest
 | Net (pkts : list packet)
+| NetAbort (pkts : list packet)
 | KeepAliveFire
 | Fail
 | Reconnect (session_present : bool).
@@ -122,6 +126,14 @@ Definition lstep (l : lstate) (o : lop) : lres :=
       if arm_ready l && negb (match pkts with [] => true | _ => false end) then
         match read_batch (st l) pkts [] with
         | Ok (s', replies) => Stepped (with_wire (with_st l s') (wire l ++ replies))
+        | Err (s', e) => fail_with (with_st l s') e
+        | Panic t => LPanic t
+        end
+      else Disabled
+  | NetAbort pkts =>
+      if arm_ready l then
+        match read_batch (st l) pkts [] with
+        | Ok (s', _) => fail_with (with_st l s') EConnectionAborted
         | Err (s', e) => fail_with (with_st l s') e
         | Panic t => LPanic t
         end
